@@ -8,6 +8,7 @@ import (
 	"strconv"
 	"strings"
 	"sync"
+	"sync/atomic"
 	"time"
 	"unicode"
 
@@ -52,8 +53,9 @@ type Parser struct {
 	mu         sync.Mutex
 	// escGen identifies the ESC the pending timeout belongs to. It changes
 	// whenever more input arrives or another ESC is seen, which cancels a
-	// timeout callback that has not run yet. Protected by mu
-	escGen uint64
+	// timeout callback that has not run yet. Accessed atomically (input
+	// can arrive while mu is held, when a grapheme is being completed)
+	escGen uint32
 	// done is set when the parser has stopped: nothing may be emitted by the
 	// timeout callback afterwards. Protected by mu
 	done bool
@@ -64,17 +66,53 @@ type Parser struct {
 	dcs DCS
 }
 
+// inputReader lets the parser know about every byte that arrives, also
+// those the buffered reader keeps to itself while it waits for the rest of a
+// multi-byte character: a pending Escape timeout is over as soon as anything
+// follows the ESC
+type inputReader struct {
+	r io.Reader
+	p *Parser
+}
+
+func (ir inputReader) Read(b []byte) (int, error) {
+	n, err := ir.r.Read(b)
+	if n > 0 {
+		ir.p.cancelEscTimeout()
+	}
+	return n, err
+}
+
+// cancelEscTimeout is called from the parsing goroutine when more input has
+// arrived
+func (p *Parser) cancelEscTimeout() {
+	if p.escTimeout == nil {
+		return
+	}
+	p.escTimeout.Stop()
+	// The timer may have fired already with its callback still waiting
+	// to run: it must not report an Escape anymore
+	atomic.AddUint32(&p.escGen, 1)
+}
+
 func NewParser(r io.Reader) *Parser {
 	parser := &Parser{
 		close:            make(chan bool, 1),
 		closed:           make(chan bool, 1),
-		r:                bufio.NewReader(r),
 		sequences:        make(chan Sequence, 2),
 		state:            ground,
 		paramListPool:    newPool(newCSIParamList),
 		paramPool:        newPool(newCSIParam),
 		intermediatePool: newPool(newIntermediateSlice),
 	}
+	// A caller which hands us a buffered reader has chosen how much input
+	// can be looked at in one go (a grapheme is only completed from input
+	// which is already buffered)
+	size := 4096
+	if br, ok := r.(*bufio.Reader); ok && br.Size() > size {
+		size = br.Size()
+	}
+	parser.r = bufio.NewReaderSize(inputReader{r, parser}, size)
 	// Rob Pike didn't use concurrency since he wanted templates to be able
 	// to happen in init() functions, but we don't care about that.
 	go parser.run()
@@ -158,15 +196,7 @@ func (p *Parser) WaitClose() {
 
 func (p *Parser) readRune() rune {
 	r, size, err := p.r.ReadRune()
-	if p.escTimeout != nil {
-		p.escTimeout.Stop()
-		// The timer may have fired already with its callback still waiting
-		// to run: more input has arrived, it must not report an Escape
-		// anymore
-		p.mu.Lock()
-		p.escGen += 1
-		p.mu.Unlock()
-	}
+	p.cancelEscTimeout()
 	if r == unicode.ReplacementChar && size == 1 {
 		// If invalid UTF-8, let's read the byte and deliver
 		// it as is. A size of 1 tells an invalid byte from a
@@ -491,24 +521,24 @@ func anywhere(r rune, p *Parser) stateFn {
 			p.exit = nil
 		}
 		p.clear()
-		p.escGen += 1
+		atomic.AddUint32(&p.escGen, 1)
 		if p.r.Buffered() > 0 {
 			// More input was read together with this ESC: it is not a
 			// lone Escape key press, however long it takes us to get
 			// to the next byte
 			return escape
 		}
-		gen := p.escGen
+		gen := atomic.LoadUint32(&p.escGen)
 		p.escTimeout = time.AfterFunc(10*time.Millisecond, func() {
 			verifhook.At("ansi.timer.fired")
 			p.mu.Lock()
 			defer p.mu.Unlock()
-			if p.done || gen != p.escGen {
+			if p.done || gen != atomic.LoadUint32(&p.escGen) {
 				// Input arrived or the parser stopped before we got
 				// to run
 				return
 			}
-			p.escGen += 1
+			atomic.AddUint32(&p.escGen, 1)
 			p.emit(C0(0x1B))
 			verifhook.At("ansi.timer.beforeReset")
 			p.state = ground
